@@ -223,7 +223,7 @@ RunResult run(J const &plan) {
   res.counters["probe.steps_outside_grid"] += outside_steps;
   res.counters["probe.hills_deposited_outside_grid"] += outside_deposits;
   res.counters["probe.steps_with_untabulated_hills"] += pending_steps;
-  res.counters["probe.resumes"] += nres;
+  res.counters["probe.resumes"] += nres; res.counters["fault.stop_and_resume"] += nres;
   res.counters["probe.grid_expansions"] += expansions;
   res.counters["probe.steps_outside_grid_after_expansion"] += outside_after_expansion;
   res.nontrivial = deposited > 0;
